@@ -18,7 +18,7 @@ TECHNIQUE = 'symbolic one-step pending-reconnect invariant + bounded symbolic ad
 EXPLANATION = 'C02: pending-reconnect invariant and cooperative-recovery script after symbolic adversarial prefixes.'
 BOUNDS = 'adversarial prefix depth <= 3 (quick) / 4 (thorough) over 16 event classes; 3 timer configurations; cooperative phase <= 14 steps + 9 keepalive rounds'
 ASSUMPTIONS = ['Twisted contract as modelled', 'virtual time only (no wall clock)']
-BUDGET = {'quick': 300, 'thorough': 1200}
+BUDGET = {'quick': 300, 'thorough': 1800}
 
 
 def reconnect_pending(w):
